@@ -198,6 +198,10 @@ _asn1f_foreach_unparsed(arg_t *arg, const asn1p_constraint_t *ct,
     case ACT_CA_CSV:    /* , */
         break;
     case ACT_EL_VALUE:
+        if(ct->value && ct->value->type == ATV_UNPARSED && process) {
+            return process(ct->value->value.string.buf + 1,
+                           ct->value->value.string.size - 2, keyp) ? -1 : 0;
+        }
         return 0;
     }
 
